@@ -22,6 +22,8 @@ type cutCase struct {
 	Cut     int    `json:"cut_after_sends"`
 	Away    int    `json:"away_mask"` // which of the ops not applied before the cut are applied while away
 	Restart bool   `json:"restart"`
+	// Variant 1: sotw - EDS re-sent before CDS with re-warming; delta - explicit "*" plus a named watch
+	Variant int `json:"variant"`
 }
 
 func (c cutCase) String() string {
@@ -29,7 +31,7 @@ func (c cutCase) String() string {
 	for _, x := range c.Ops {
 		o = append(o, x.String())
 	}
-	return fmt.Sprintf("%s [%s] proxy=%s delta=%v cut=%d away=%b restart=%v", c.Base, strings.Join(o, " "), proxies[c.Proxy].Name, c.Delta, c.Cut, c.Away, c.Restart)
+	return fmt.Sprintf("%s [%s] proxy=%s delta=%v cut=%d away=%b restart=%v variant=%d", c.Base, strings.Join(o, " "), proxies[c.Proxy].Name, c.Delta, c.Cut, c.Away, c.Restart, c.Variant)
 }
 
 type cutResult struct {
@@ -94,6 +96,7 @@ func runCut(t *testing.T, cc cutCase) (cr cutResult) {
 			target = newServer(t, st.objects())
 		}
 		c2 := newClient(spec, cc.Delta)
+		c2.edsFirst, c2.explicitWildcard = cc.Variant == 1, cc.Variant == 1
 		c2.retainFrom(c1)
 		for _, ty := range clientTypes {
 			cr.retained += len(c2.ts[ty].held)
@@ -132,7 +135,7 @@ func flavour(delta bool) string {
 func TestC05(t *testing.T) {
 	env := engine.GetEnv()
 	res := engine.NewResult("C05", "reconnect")
-	res.Rule = "case = base x operation history x proxy x {sotw, delta} x cut after the k-th server message (every k of the exchange) x subset of the remaining operations applied while away x {same control plane, restarted control plane}; non-trivial = case in which the client retained resources and something changed while it was away, or the cut fell inside a multi-message exchange"
+	res.Rule = "case = base x operation history x proxy x {sotw, delta} x cut after the k-th server message (every k of the exchange) x subset of the remaining operations applied while away x {same control plane, restarted control plane} x reconnect variant {CDS first; EDS re-sent first with re-warming (sotw) / explicit '*' plus a named watch (delta)}; non-trivial = case in which the client retained resources and something changed while it was away, or the cut fell inside a multi-message exchange"
 	defer res.Write(t, env)
 	if env.Replay != "" {
 		var cc cutCase
@@ -175,8 +178,9 @@ func TestC05(t *testing.T) {
 					probe := runCut(t, cutCase{Base: b, Ops: []op{o}, Proxy: pi, Delta: delta, Cut: -1})
 					for k := 0; k <= probe.totalSends; k++ {
 						for _, restart := range []bool{false, true} {
-							for away := 0; away < 2; away++ {
-								cc := cutCase{Base: b, Ops: []op{o}, Proxy: pi, Delta: delta, Cut: k, Away: away, Restart: restart}
+							for av := 0; av < 4; av++ {
+								away, variant := av%2, av/2
+								cc := cutCase{Base: b, Ops: []op{o}, Proxy: pi, Delta: delta, Cut: k, Away: away, Restart: restart, Variant: variant}
 								if k == 0 {
 									cc.Cut = 0
 								}
